@@ -13,6 +13,7 @@ pub mod c07;
 pub mod c08;
 pub mod c09;
 pub mod c10;
+pub mod c11;
 pub mod c16;
 pub mod c19;
 pub mod c20;
